@@ -11,7 +11,7 @@ import re
 
 from common import *
 
-IMPORTS = "Pg.Model"
+IMPORTS = "Pg.Model Pg.Conc"
 ACTORS = [1, 2, 3, 4, 101, 102]
 SCOPES = [1, 2, 3]
 GROUPS = [1, 2, 3]
@@ -230,6 +230,9 @@ def run(chk):
         exprs.append(f"(check_C11 {UNIVERSE} {ops_term(c)} {raw}, why_C11 {UNIVERSE} {ops_term(c)} {raw})")
     for c in cases:
         exprs.append(f"forallb (op_in {UNIVERSE}) {ops_term(c)} && check_C11 {UNIVERSE} {ops_term(c)} (run_views {UNIVERSE} pg0 {ops_term(c)})")
+    for c in cases:
+        # the lock-section model (coq/Pg/Conc.v) run solo must agree with the atomic model
+        exprs.append(f"solo_agree {UNIVERSE} (cinit []) pg0 {ops_term(c)}")
     model = coq_eval("C11", IMPORTS, exprs)
     n = len(cases)
     distinct = set()
@@ -242,6 +245,10 @@ def run(chk):
             chk.violation("oracle check_C11 rejects the model's own run (or op outside the universe)",
                           f"{lines[i]}\ncheck_C11 U ops (run_views U pg0 ops) = false", failing_input=False)
         chk.coverage["evaluations"] += 1
+        if model[3 * n + i].strip() != "true":
+            chk.violation("micro-step model run solo disagrees with the atomic model",
+                          f"{lines[i]}\nsolo_agree U (cinit []) pg0 ops = false (coq/Pg/Conc.v vs coq/Pg/Model.v)",
+                          failing_input=False)
         nev = stats(chk, c, iv)
         if nev > 0 and any(o[0] in ("x", "k", "l") for o in c):
             distinct.add(lines[i])
